@@ -41,14 +41,17 @@ def r1_inputs(ctx, docs):
     ps = cxx.params(nc)
     ctx.check(len(ps) == 2, 'C11.R1', 'src/adapters.cpp|gclmulchunker::next_cut|signature', f'src/adapters.cpp:{cxx.line_of(nc)}', 'next_cut(buffer, final): no absolute stream position is an input', f'next_cut takes {ps}')
     # no globals / statics referenced
-    glob = [n for n in cxx.walk(nc) if n.get('kind') == 'DeclRefExpr' and n.get('referencedDecl', {}).get('kind') == 'VarDecl' and n['referencedDecl'].get('name') not in {'i', 'max_index', 'size', 'max_value', 'buffer_data', 'info', 'k'}]
+    own = {n.get('id') for n in cxx.walk(nc) if n.get('kind') in ('VarDecl', 'ParmVarDecl', 'BindingDecl', 'DecompositionDecl')}
+    glob = [n for n in cxx.walk(nc) if n.get('kind') == 'DeclRefExpr' and n.get('referencedDecl', {}).get('kind') == 'VarDecl' and n['referencedDecl'].get('id') not in own]
     ctx.check(not glob, 'C11.R1', 'src/adapters.cpp|gclmulchunker::next_cut|no-globals', f'src/adapters.cpp:{cxx.line_of(nc)}', 'next_cut references only its locals', f'next_cut references non-local variable {glob[0]["referencedDecl"].get("name") if glob else ""}')
     # Python side: the native call gets exactly (buffer, finality)
     ci, f = c10._call(ctx.corpus)
     cuts = [c for c in calls_in(f.node) if isinstance(c.func, ast.Attribute) and c.func.attr == 'next_cut']
     ctx.floor('C11.R1', 'next_cut call in the adapter', len(cuts))
     for c in cuts:
-        ctx.check(len(c.args) == 2 and not c.keywords and isinstance(c.args[0], ast.Name), 'C11.R1', f'{func_label(f)}|native-inputs', loc(f, c), 'the adapter hands next_cut only the carry-over buffer and the finality flag', f'next_cut is called with {src(c, 80)}')
+        w = c.args[0] if c.args else None
+        named = isinstance(w, ast.Name) or (isinstance(w, ast.Subscript) and isinstance(w.value, ast.Name) and isinstance(w.slice, ast.Slice) and w.slice.upper is None and w.slice.step is None)
+        ctx.check(len(c.args) == 2 and not c.keywords and named, 'C11.R1', f'{func_label(f)}|native-inputs', loc(f, c), 'the adapter hands next_cut only the carry-over buffer and the finality flag', f'next_cut is called with {src(c, 80)}')
 
 
 def r2_padding(ctx, docs, stride):
